@@ -18,7 +18,7 @@ TRUSTED = ['Gen/Classes.v (what every class copy() transfers) regenerated from t
            'Core/Model.v copy_op / rebuild / copy_leaf: hand-written, tied by this correspondence run']
 ASSUMPTIONS = ['object identity modelled as insertion index; independence is a theorem of the functional model and an observation on the implementation']
 RULE = ('random build programs over every operation class (each class appears behind predecessors of different relation depth), explicit copy, implicit copy by nesting, '
-        'then extension + unrolling of one side while the other is observed; the copy of a circuit whose operations were LISTED first; copies of DERIVED circuits (unrolled / flattened / unrolled then flattened), tied to the model where its flatten is validated and judged by the specification alone elsewhere; programs with relations to a GROUP of operations (specification only); ~13% structured shapes (coregen.gen_structured); non-trivial: >= 2 leaves and (nested or explicit relation or shared qubit)')
+        'then extension + unrolling of one side while the other is observed; the copy of a circuit whose operations were LISTED first; copies of DERIVED circuits (unrolled / flattened / unrolled then flattened), tied to the model where its flatten is validated and judged by the specification alone elsewhere; programs with relations to a GROUP of operations (specification only); ~13% structured shapes (coregen.gen_structured); non-trivial: >= 2 leaves and (nested or explicit relation or shared qubit)' ' Independence is watched for explicit copies and for the implicit copy made by nesting through add() (as a circuit and as its raw structure), in both directions.')
 
 
 def L(cls, q, **kw):
